@@ -5,6 +5,7 @@ import DesyncModel.Spec
 import DesyncModel.Tables.FutureDrop
 import DesyncModel.Tables.Push
 import DesyncModel.Tables.Pool
+import DesyncModel.Inv.JobReach
 
 namespace Desync.C03
 open Desync Gen
@@ -36,5 +37,55 @@ theorem pending_is_taken : nextToRun .pending = (.running, true) := rfl
 
 /-- The dormant scan cannot mistake a thread that is about to go dormant for a busy one. -/
 theorem scan_sees_dormant : dormantScanBlocks = true := dormant_scan_blocks
+
+/-- **No accepted operation is lost or duplicated (safety half of C03), in every reachable state**: an accepted job is in
+exactly one place.  A job marked `queued` is in the list of its own queue, exactly once, and in no other queue's list;
+a job marked `held a` is in the hands of exactly the activity `a`, whose program counter says so and which owns the run
+right of the job's queue; a job marked `done` has ended (run to completion or destroyed).  The `stranded` half (a queued
+job is eventually run) is `C03_full`, which is a quiescence statement and is decided by conformance + oracles. -/
+theorem accepted_job_is_in_one_place {s : State} (hr : Reachable s) {j : Nat} {b : Job} (hb : s.jobs[j]? = some b) :
+    (b.ph = .queued → ∃ v, s.qs[b.q]? = some v ∧ j ∈ v.jobs ∧ v.jobs.Nodup ∧
+        ∀ q' v', s.qs[q']? = some v' → j ∈ v'.jobs → q' = b.q) ∧
+    (∀ a, b.ph = .held a → (s.pcAt a).runningQ = some (j, b.q) ∧ (s.pcAt a).holds b.q = true ∧
+        ∀ a', (s.pcAt a').runningQ = some (j, b.q) → a' = a) ∧
+    (b.ph = .done → b.ended = true) := by
+  obtain ⟨_, hf⟩ := fullInv_reachable hr
+  have hpq := jobPQ_of hb
+  refine ⟨?_, ?_, ?_⟩
+  · intro hq
+    rw [hq] at hpq
+    obtain ⟨l, hl, hmem⟩ := hf.job.member j b.q hpq
+    have : ∃ v, s.qs[b.q]? = some v ∧ v.jobs = l := by
+      unfold State.qjobs at hl
+      cases hv : s.qs[b.q]? with
+      | none => simp [hv] at hl
+      | some v => exact ⟨v, rfl, by simpa [hv] using hl⟩
+    obtain ⟨v, hv, rfl⟩ := this
+    refine ⟨v, hv, hmem, hf.job.nodup b.q v.jobs hl, ?_⟩
+    intro q' v' hv' hm'
+    have := hf.job.queued q' v'.jobs j (qjobs_of hv') hm'
+    rw [hpq] at this
+    simp at this
+    exact this.symm
+  · intro a ha
+    rw [ha] at hpq
+    have hrun := hf.job.run2 a j b.q hpq
+    refine ⟨hrun, (held_job_owner_holds hr hb ha).1, ?_⟩
+    intro a' hr'
+    have := hf.job.run1 a' j b.q hr'
+    rw [hpq] at this
+    simp at this
+    exact this.symm
+  · intro hd
+    rw [hd] at hpq
+    have := hf.ord.doneEnded j b.q hpq
+    rw [jobE_of hb] at this
+    exact this
+
+/-- job ids are never reused: every job in the table, queued or not, has an id below the allocation counter, and the
+list of a queue is strictly increasing (the order of acceptance) -/
+theorem queue_lists_in_acceptance_order {s : State} (hr : Reachable s) {q : Nat} {v : JobQ} (hv : s.qs[q]? = some v) :
+    v.jobs.Pairwise (· < ·) :=
+  (fullInv_reachable hr).2.ord.sorted q v.jobs (qjobs_of hv)
 
 end Desync.C03
